@@ -759,7 +759,7 @@ def large_case(run_seed, tier, which):
     try:
         fa = Path(root) / "big.fa"
         # (also lines wider than 64 KiB, and the whole record on one line)
-        width = rng.choice([60, 80, 100, 60, 65536, 70001, L])
+        width = rng.choice([70001, 131073, L]) if which % 3 == 2 else rng.choice([60, 80, 100])
         # not periodic: a random prefix, N runs inside
         unit = "".join(rng.choice("ACGT") for _ in range(9973))
         seq = (unit * (L // len(unit) + 1))[:L]
